@@ -54,7 +54,8 @@ def to_smt2(formulas, variables):
     # z3 prints its internal "divisor known non-zero" operators; they coincide with the standard ones there
     for op in ('bvudiv', 'bvsdiv', 'bvurem', 'bvsrem', 'bvsmod'):
         txt = txt.replace('(' + op + '_i ', '(' + op + ' ')
-    head = '(set-logic QF_BV)\n'
+    import re as _re
+    head = '(set-logic QF_UFBV)\n' if _re.search(r'\(declare-fun \S+ \(\(', txt) else '(set-logic QF_BV)\n'
     tail = '(check-sat)\n'
     if variables:
         tail += '(get-value (%s))\n' % ' '.join(_smtname(v) for v in variables)
